@@ -55,7 +55,7 @@ PROFILES = {
     "churn": {"dup_uid": 1.0, "mk_deferred": 1.0, "clip": 1.5, "mk_object": 2.0, "remove": 4.0, "copy": 3.0, "move": 3.0, "rename": 2.0, "reopen": 2.0, "gc": 1.5, "listing": 1.5},
     "deep": {"mk_group": 5.0, "move": 4.0, "copy": 2.5, "mk_object": 2.0},
     "clip": {"mk_object": 4.0, "add_data": 6.0, "clip": 6.0, "set_parts": 2.5, "set_values": 1.0, "reopen": 1.5, "remove": 1.0, "mk_group": 1.5, "move": 1.0},
-    "pg": {"add_data": 6.0, "pg_add": 4.0, "pg_remove_data": 2.0, "pg_delete": 1.0, "remove": 3.0, "copy": 2.0},
+    "pg": {"add_data": 6.0, "pg_add": 4.0, "pg_add_second": 4.0, "pg_remove_data": 2.0, "pg_delete": 1.0, "remove": 3.0, "copy": 2.0},
 }
 
 
